@@ -1,4 +1,6 @@
 #!/bin/bash
+# evidence of runs against a modified tree goes to a scratch directory, never to /verif/evidence
+export VERIF_EVIDENCE_DIR=${VERIF_EVIDENCE_DIR:-/verif/out/evidence-scratch}
 # usage: eval_seed.sh <patch> <prop>... : apply patch to /repo, run the named checks (quick tier), restore /repo
 P=$1; shift
 git -C /repo apply "$(realpath "$P")" || { echo "patch does not apply"; exit 2; }
